@@ -23,9 +23,6 @@ R = Registry(
     not_decided="equality of the unpickled objects, pickle protocol specifics, user-defined classes.",
 )
 
-OPEN_SOURCES = ("__dict__.copy", "_shallow_to_dict", "__getstate__", "dict")
-
-
 def _state_param(fn):
     a = fn.args.args
     return a[1].arg if len(a) > 1 else None
@@ -125,7 +122,6 @@ def _reader_keys(f):
                 and isinstance(n.comparators[0], ast.Name) and n.comparators[0].id == sp and const_str(n.left) is not None:
             subscripted = True
             optional.add(const_str(n.left))
-    required -= optional & set()  # (kept: a key may be both required on one path and optional on another)
     return required, optional, not subscripted
 
 
@@ -180,10 +176,10 @@ def r1(ctx):
                   f"required {sorted(required)} ⊆ written {sorted(uncond)}" + (" (+open source)" if is_open else ""), s.loc)
 
 
-def _ctor_accepts(fn, n):
+def _ctor_accepts(fn, n, implicit=1):
     a = fn.args
     pos = a.posonlyargs + a.args
-    npos = len(pos) - 1  # minus self/cls
+    npos = len(pos) - implicit  # minus self/cls for methods
     nreq = npos - len(a.defaults)
     if a.vararg is not None:
         return n >= nreq, f"{fn.name}(>= {nreq} positional)"
@@ -289,7 +285,7 @@ def r2(ctx):
         ctx.check(not probs, key, "; ".join(probs), f"{nf} field(s)", w.loc)
 
 
-@R.rule("C51-R3", floor=30, template="T-TABLE",
+@R.rule("C51-R3", floor=31, template="T-TABLE",
         desc="the argument tuple of every literal __reduce__/__reduce_ex__ is accepted by the constructor of the class "
              "and of every subclass that inherits the __reduce__, or by the named reconstructor")
 def r3(ctx):
@@ -327,7 +323,7 @@ def r3(ctx):
                     if r.cls is not None and not is_static:
                         targets.append((r.qualname, node))  # classmethod/unbound: first param consumed
                     else:
-                        # plain function / staticmethod: no implicit first parameter -> emulate by n+1
+                        # plain function / staticmethod: no implicit first parameter
                         targets.append((r.qualname + "()", node))
                 elif isinstance(r, ClassInfo):
                     for ctor in ("__new__", "__init__"):
@@ -339,8 +335,7 @@ def r3(ctx):
                     continue
             probs = []
             for label, node in targets:
-                eff_n = n + 1 if label.endswith("()") else n
-                okk, sig = _ctor_accepts(node, eff_n)
+                okk, sig = _ctor_accepts(node, n, 0 if label.endswith("()") else 1)
                 if not okk:
                     probs.append(f"{label}: {sig} cannot take the {n} pickled argument(s)")
             ctx.check(not probs, f.key, "; ".join(probs) + " (unpickling raises TypeError)",
